@@ -65,6 +65,11 @@ macro_rules! for_wtype {
             "i32x256" => $m!(bn i (bnum::BIntD32<256>) $($extra)*),
             "u64x128" => $m!(bn u (bnum::BUint<128>) $($extra)*),
             "i64x128" => $m!(bn i (bnum::BInt<128>) $($extra)*),
+            // beyond 65535 bits: "all (source type, target type) pairs" has no upper width; bit counts no longer fit u16 here
+            "u64x1025" => $m!(bn u (bnum::BUint<1025>) $($extra)*),
+            "i64x1025" => $m!(bn i (bnum::BInt<1025>) $($extra)*),
+            "u8x8200" => $m!(bn u (bnum::BUintD8<8200>) $($extra)*),
+            "i8x8200" => $m!(bn i (bnum::BIntD8<8200>) $($extra)*),
             "u64x127" => $m!(bn u (bnum::BUint<127>) $($extra)*),
             "i64x127" => $m!(bn i (bnum::BInt<127>) $($extra)*),
             "u16x33" => $m!(bn u (bnum::BUintD16<33>) $($extra)*),
